@@ -201,6 +201,19 @@ def _evaluate_guarded(params):
     are no choice points and this is a single plain evaluation; if a (changed) library farms work out to an
     executor, every completion order with at most one non-FIFO decision is evaluated as well and any failure
     under any of those schedules counts (sub id suffixed with the schedule)."""
+    from . import env
+    before = env.SEAM_BYPASSED[0]
+    out = _evaluate_scheduled(params)
+    if env.SEAM_BYPASSED[0] != before and out.failures:
+        # the library rebuilt a generator from the bit generator of the scripted one: the injected draws were not
+        # used, so the failures of this case say nothing about the property - not claimed, and said so
+        n = len(out.failures)
+        out.failures = []
+        out.stat("scripted_generator_bypassed_failures_not_claimed", n)
+    return out
+
+
+def _evaluate_scheduled(params):
     if getattr(_MOD, "OWN_SCHEDULING", False):
         return _evaluate_once(params)
     from . import sched
